@@ -163,6 +163,11 @@ func (node *DateNode) Sub(node2 *DateNode) (min Duration, max Duration, errs err
 }
 
 func (node *DateNode) Warnings() Warnings {
+	// There is nothing to warn about a date that does not exist.
+	if node == nil {
+		return nil
+	}
+
 	if !node.IsValid() {
 		return Warnings{
 			NewUnparsableDateWarning(node),
